@@ -1200,6 +1200,22 @@ impl<'a> World<'a> {
                 let payload = Rc::new(make_payload(*ep, *ch, *mode, *len, *tag));
                 self.do_send(*ep, *to, *ch, *mode, *tag, payload, false, oracles);
             }
+            Op::SendBurst { ep, to, len, tag, count } => {
+                if matches!(self.eps[*ep].obj, EpObj::None | EpObj::Raw) {
+                    self.harness_op(op, true, oracles);
+                    return;
+                }
+                for i in 0..*count {
+                    if self.stop {
+                        break;
+                    }
+                    let t = tag.wrapping_add(i);
+                    let ch = (t % 4) as u8;
+                    let mode = [MODE_UNRELIABLE, MODE_RELIABLE, MODE_PERSISTENT][(t % 3) as usize];
+                    let payload = Rc::new(make_payload(*ep, ch, mode, *len, t));
+                    self.do_send(*ep, *to, ch, mode, t, payload, false, oracles);
+                }
+            }
             Op::Disconnect { ep, to } | Op::DisconnectNow { ep, to } => {
                 let now = matches!(op, Op::DisconnectNow { .. });
                 let ep = *ep;
